@@ -317,9 +317,21 @@ def run_threads(spec, res):
         else:
             schema = cls(xsd)
             lock = None
-        shared_lazy = xmlschema.XMLResource(pool[0].encode('utf-8'), lazy=1) if scenario == 'shared_lazy' else None
+        shared_text = pool[0]
+        shared_file = None
+        if scenario == 'shared_lazy' and fam == 'shop' and k % 12 == 3:
+            # a long document read from an *open file object*: the reader's position is shared state too (a refused second
+            # iteration must not rewind it under the running one)
+            import tempfile
+            long_doc = D.gen_shop(rng, nprod=rng.randint(90, 130), nord=rng.randint(20, 40))
+            shared_text = D.render_doc(long_doc, fam, prefixes=D.default_prefixes(fam, rng))
+            shared_file = tempfile.TemporaryFile()
+            shared_file.write(shared_text.encode('utf-8'))
+            shared_file.seek(0)
+            res.count('shared_lazy:open_file_long_document')
+        shared_lazy = xmlschema.XMLResource(shared_file or shared_text.encode('utf-8'), lazy=1) if scenario == 'shared_lazy' else None
         lazy_baseline = safe(xmlschema, lambda: [clean_reason(e.reason) for e in seq_schema.iter_errors(
-            xmlschema.XMLResource(pool[0].encode('utf-8'), lazy=1))])
+            xmlschema.XMLResource(shared_text.encode('utf-8'), lazy=1))])
         results = [None] * nthreads
         barrier = threading.Barrier(nthreads)
         calls.reset()
